@@ -235,6 +235,15 @@ CLAIMED = {
         'note': 'H1 for top (answers IGNORED, does not move the cursor). Malformed charts other than the two kinds the property names are not covered.',
         'technique': SA + 'loop inventory with termination arguments, None-discipline dataflow over handler-call sites, sibling comparison, zone-domain index proofs',
     },
+    'C17': {
+        'level': 'Decides the structural necessary conditions of "template, Factory and to_code builds behave like the hand-written chart": the '
+                 'generated handler obeys the protocol H1-H3 the processor assumes, writers/runtime readers/to_code agree on the two registries '
+                 'and their key structure, every fragment to_code can emit - enumerated completely and assembled with placeholders - parses into a '
+                 'protocol-conforming handler, and Factory resolves names through a subscriptable table. Equality of the action logs of the three '
+                 'builds over all event sequences is translation validation by execution and is NOT decided.',
+        'note': 'Not decided: behavioural equality over event sequences. The fragment enumeration is complete for the literals present in to_code.',
+        'technique': SA + 'protocol-shape matching on ASTs, registry key-structure agreement, exhaustive assembly and parsing of emitted code fragments, field-type discipline',
+    },
 }
 
 NOT_APPLICABLE = {}
